@@ -405,6 +405,35 @@ def rule_esc_table(ctx: RuleContext, p: Program, g: rx.Grammar, rid: str) -> Non
         problem = _esc_callable_sem(p, c, fn, table, direction)
         ctx.check(not problem, rid, f'{site}.{fn_name}', 'replacement callable agrees with the map' if not problem else problem,
                   f'{fn_name}(): {problem}', fn.where, note='interpreted for every key / image and an unrelated character')
+        # every result is the substitution over the WHOLE string: the input may be returned as it is only under a test that no
+        # character anywhere in it matches (`not <pattern>.search(s)`); .match / .fullmatch look at the start / the whole only
+        sparam = fn.params[1] if len(fn.params) > 1 else None
+        early = None
+        for r in walk_no_nested(fn.node):
+            if not (isinstance(r, ast.Return) and r.value is not None):
+                continue
+            if any(isinstance(x, ast.Call) and norm(x.func) == 're.sub' for x in ast.walk(r.value)):
+                continue
+            if isinstance(r.value, ast.Name) and r.value.id == sparam:
+                # find the guarding test
+                guard = None
+                for i in walk_no_nested(fn.node):
+                    if isinstance(i, ast.If) and any(x is r for b in i.body for x in ast.walk(b)):
+                        guard = i.test
+                conj = guard.values if isinstance(guard, ast.BoolOp) and isinstance(guard.op, ast.And) else ([guard] if guard is not None else [])
+                ok_guard = any(isinstance(g, ast.UnaryOp) and isinstance(g.op, ast.Not) and isinstance(g.operand, ast.Call)
+                               and isinstance(g.operand.func, ast.Attribute) and g.operand.func.attr == 'search'
+                               and g.operand.args and norm(g.operand.args[-1]) == sparam for g in conj) or \
+                    any(isinstance(g, ast.Compare) and len(g.ops) == 1 and isinstance(g.ops[0], ast.Is) and isinstance(g.left, ast.Call)
+                        and isinstance(g.left.func, ast.Attribute) and g.left.func.attr == 'search' and norm(g.comparators[0]) == 'None' for g in conj)
+                if not ok_guard:
+                    early = f'returns `{sparam}` unchanged under `{norm(guard)[:70] if guard is not None else "no test"}`'
+            else:
+                early = f'returns `{norm(r.value)[:50]}` without substituting'
+        ctx.check(early is None, rid, f'{site}.{fn_name}: whole string', 'every result is re.sub over the whole string' if early is None else early,
+                  f'{fn_name}() {early}: only `not <pattern>.search(s)` says that nothing in the string needs the substitution (match() looks at the '
+                  f'first character only), so a quote or backslash further in is written out bare and the text no longer lexes as one string',
+                  fn.where)
 
 
 def _esc_callable_sem(p: Program, c: ClassInfo, fn: FuncInfo, table: dict, direction: str) -> str:
@@ -563,7 +592,10 @@ def run(ctx: RuleContext, p: Program) -> None:
     ctx.try_rule(rule_rawtext_cover, p, g, 'RAWTEXT-COVER')
     ctx.try_rule(rule_split_total, p, g, 'SPLIT-TOTAL')
     ctx.try_rule(rule_gram_eol, p, g, 'GRAM-EOL')
+    ctx.try_rule(rule_gram_look, p, g, 'GRAM-LOOK')
     ctx.try_rule(rule_str_boundary, p, g, 'STR-BOUNDARY', 7 if ctx.tier == 'quick' else 9)
+    from . import round4
+    ctx.try_rule(round4.rule_dec_exact, p, 'DEC-EXACT')
     ctx.not_decided += ['from_value(v).value == v for arbitrary string values', 'decimal value domain of Number (str(Decimal) may use '
                         'exponents; callers pass abs(value))', 'that produced text lexes as exactly one token in context']
     ctx.assumptions += ['frozen table of str.splitlines break characters', 'frozen strftime table for this platform (%Y unpadded '
@@ -739,6 +771,72 @@ def rule_gram_eol(ctx: RuleContext, p: Program, g: rx.Grammar, rid: str) -> None
                   f'is assigned', c.where, note=f'no lexeme of {tname} ends in {firsts!r}')
     if n < 10:
         raise AnalysisError(f'GRAM-EOL: only {n} value-bearing terminals examined')
+
+
+def rule_gram_look(ctx: RuleContext, p: Program, g: rx.Grammar, rid: str) -> None:
+    """look-ahead assertions of terminals that mean "visible text follows" must treat every line-terminator starter as not visible"""
+    import sre_parse
+    ctx.rule(rid, 'a terminal whose look-ahead says "something other than a blank follows" (a negated character class containing the blank '
+                  'characters) also excludes every character the line terminator can start with: otherwise the blanks of a whitespace-only '
+                  'line of a CRLF file are lexed as that terminal (an INDENT followed by a dedent) instead of as white space, and the spacing '
+                  'run between two entries is cut in two')
+    nl = g.terminal_nfa('_NEWLINE')
+    firsts = set()
+    for cs, _ in [x for st in nl.closure([nl.start]) for x in nl.trans.get(st, [])]:
+        for a, b in cs:
+            for cp in range(a, min(b, a + 8) + 1):
+                firsts.add(chr(cp))
+    if not firsts:
+        raise AnalysisError('GRAM-LOOK: cannot compute the first characters of _NEWLINE')
+    n = 0
+    for tname, t in sorted(g.terminals.items()):
+        if t.pattern.type != 're':
+            continue
+        try:
+            parsed = sre_parse.parse(t.pattern.to_regexp())
+        except Exception:
+            continue
+
+        def walk(items: Any) -> Any:
+            for op, av in items:
+                name = str(op)
+                if name in ('ASSERT', 'ASSERT_NOT'):
+                    yield name, av
+                    yield from walk(av[1])
+                elif name == 'BRANCH':
+                    for alt in av[1]:
+                        yield from walk(alt)
+                elif name == 'SUBPATTERN':
+                    yield from walk(av[3])
+                elif name in ('MAX_REPEAT', 'MIN_REPEAT', 'POSSESSIVE_REPEAT'):
+                    yield from walk(av[2])
+                elif name == 'ATOMIC_GROUP':
+                    yield from walk(av)
+        for name, (direction, sub) in walk(parsed):
+            sub = list(sub)
+            if name != 'ASSERT' or direction <= 0 or len(sub) != 1 or str(sub[0][0]) != 'IN':
+                continue
+            items = list(sub[0][1])
+            if not items or str(items[0][0]) != 'NEGATE':
+                continue
+            excluded = set()
+            for iop, iav in items[1:]:
+                if str(iop) == 'LITERAL':
+                    excluded.add(chr(iav))
+                elif str(iop) == 'RANGE':
+                    excluded.update(chr(c_) for c_ in range(iav[0], min(iav[1], iav[0] + 64) + 1))
+                elif str(iop) == 'CATEGORY' and 'SPACE' in str(iav):
+                    excluded.update(' \t\n\r\f\v')
+            if not ({' ', '\t'} & excluded):
+                continue
+            n += 1
+            missing = sorted(firsts - excluded)
+            ctx.check(not missing, rid, f'beancount.lark:{tname}', f'look-ahead excludes {sorted(excluded)!r}',
+                      f'{tname} /{t.pattern.to_regexp()}/: its look-ahead "not a blank follows" accepts {missing!r}, which starts a line terminator '
+                      f'(_NEWLINE): the blanks of a whitespace-only line that ends in CRLF become a {tname} token, not white space', 'autobean_refactor/beancount.lark',
+                      note=f'excludes {sorted(excluded)!r}; _NEWLINE starts with {sorted(firsts)!r}')
+    if n < 1:
+        raise AnalysisError('GRAM-LOOK: no blank-excluding look-ahead found (INDENT confirmed)')
 
 
 # ====================================================================== STR-BOUNDARY (added after seeded round 4)
